@@ -17,7 +17,7 @@ def PF_NEED_PATCH : Nat := 512
 /-! ### `is_constant` / `is_jsx_attr_value_constant` -/
 mutual
 def isConstant : Node → Bool
-  | .mk .ident (n :: _) _ => n == "undefined"
+  | .mk .ident (n :: b :: _) _ => n == "undefined" && b == "u"     -- only the GLOBAL `undefined` (unresolved binding)
   | .mk .array _ [.mk .list _ elems] => allConstElems elems
   | .mk .object _ [.mk .list _ props] => allConstProps props
   | .mk .str _ _ => true
@@ -37,7 +37,7 @@ def allConstProps : List Node → Bool
   | .mk .kv _ [k, v] :: rest =>
     -- a computed key is evaluated on every render, just like the value
     (match k with | .mk .computed _ [e] => isConstant e | _ => true) && isConstant v && allConstProps rest
-  | .mk .ident (n :: _) _ :: rest => n == "undefined" && allConstProps rest   -- shorthand property
+  | .mk .ident (n :: b :: _) _ :: rest => (n == "undefined" && b == "u") && allConstProps rest   -- shorthand property
   | _ :: _ => false
 end
 
